@@ -195,9 +195,11 @@ class _Recorder:
 # ---- symbolic s-expression ----------------------------------------------------------------------------
 
 def _conc(x, n):
-    # one path per menu entry: plain ints for the code under test; any value outside 0..n-2
-    # selects the last entry
-    for v in range(n - 1):
+    # one path per menu entry: plain ints for the code under test; values below the menu select the
+    # first entry, values above it the last
+    if x <= 0:
+        return 0
+    for v in range(1, n - 1):
         if x == v:
             return v
     return n - 1
@@ -349,32 +351,6 @@ def policy(cfg: int, shape: int, tg: List[int], nm: List[int]) -> bool:
     return True
 
 
-def _known_family(cfg, shape, tg, nm):
-    """an `instance` node whose class child is (directly or through a `reference`) a `function` node
-    naming the not-allowed class vc45mod.Hidden, under the configuration that allows the function type"""
-    if cfg != 1 or shape == 0 or shape == 2:
-        return False
-    hid = NAMES.index(b"vc45mod.Hidden")
-    if tg[0] == T_INSTANCE and tg[1] == T_FUNCTION and nm[1] == hid:
-        return True
-    if shape == 3 and tg[3] == T_FUNCTION and nm[3] == hid:
-        if tg[1] == T_INSTANCE:
-            return True
-        if tg[0] == T_INSTANCE and tg[1] == T_REFERENCE:
-            return True
-    return False
-
-
-# only consulted while KNOWN_FINDINGS.json lists this key as an OPEN finding
-EXCLUDE = {"instance-class-via-function-tag": {"policy": "not _known_family(cfg, shape, tg, nm)"}}
-
-
-def classify(harness_name, args):
-    if harness_name == "policy" and _known_family(args["cfg"], args["shape"], args["tg"], args["nm"]):
-        return "instance-class-via-function-tag"
-    return None
-
-
 # ---- round trip -----------------------------------------------------------------------------------------
 
 STRS = ["", "k", "\u00e9\u20ac"]
@@ -428,8 +404,9 @@ def _policy_shards(tier):
         for sh in range(top + 1):
             base = ("cfg == %d" % c, "shape == %d" % sh)
             if sh == 3:      # case split over the root
-                out += [base + ("tg[0] == %d" % T_CLASSTAG, "nm[0] == %d" % k) for k in range(len(NAMES) - 1)]
-                out += [base + ("tg[0] == %d" % T_CLASSTAG, "not (0 <= nm[0] < %d)" % (len(NAMES) - 1))]
+                out += [base + ("tg[0] == %d" % T_CLASSTAG, "nm[0] <= 0")]
+                out += [base + ("tg[0] == %d" % T_CLASSTAG, "nm[0] == %d" % k) for k in range(1, len(NAMES) - 1)]
+                out += [base + ("tg[0] == %d" % T_CLASSTAG, "nm[0] >= %d" % (len(NAMES) - 1))]
                 out += [base + ("tg[0] == %d" % t,) for t in containers]
                 out += [base + ("tg[0] not in %r" % ((T_CLASSTAG,) + containers,),)]
             elif sh == 4:
